@@ -4,13 +4,13 @@ PROP = dict(
         "statime_algo::estimator::EstimatorState::<NoAllocKalmanStorage<(),25>>::{add_clock,remove_clock,add_external_clock,remove_external_clock,add_link,remove_link,progress_time,clock_offset,clock_frequency,is_internal_clock,is_external_clock}",
         "statime_algo::estimator::{ClockInfoList,LinkInfoList,ExternalClockList}::{add,remove,update_indices,contains}",
         "statime_algo::matrix::Matrix::<[f64;25]>::{new,new_vec,splice_vec,splice_square,extend_vec,extend,zero,index}",
-        "statime_algo::KalmanController::<NoAllocKalmanStorage<FixedClock,16>,FixedClock>::{new,add_clock,remove_clock,add_external_clock,remove_external_clock,create_tracked_link,create_untracked_link,clock_offset} + LinkFilter counterparts",
+        "statime_algo::KalmanController::<NoAllocKalmanStorage<FixedClock,4>,FixedClock>::{new,remove_clock,add_external_clock,remove_external_clock,create_untracked_link,clock_offset,clock_frequency} + LinkFilter counterparts",
     ],
     bounds="estimator: 2 clock ids + 1 link id (<= 5 state rows, 25 covariance entries), concrete storage NoAllocKalmanStorage (fixed arrays + ArrayVec; the estimator/matrix/filter code is generic and shared with the heap storage); "
            "pre-states = six scripted layouts (c0 c1 L / c1 c0 L / c0 x1 L / L c0 / c1 L c0 / single clock) and, in c42_ops_seq2, every state reachable from empty by <= 1 operation; "
            "then each of the 10 operations {add,remove}x{clock c0,c1; external c0,c1; link}; every state-vector and covariance entry an arbitrary f64 bit pattern (NaN and infinities included), compared bit-wise; "
-           "controller: system clock + one steered clock + one external clock + one untracked link, every entry symbolic, one of 6 operations with symbolic identifiers (all usize)",
-    outside="3 or more clocks / 2 or more links (9x9 matrices: symbolic execution of the array-moving code did not finish in 15 min; with the heap storage Vec growth through realloc leaves every list loop unbounded for the symbolic executor); "
+           "controller: system clock + one external clock + one untracked link, every entry symbolic, one of 6 operations with symbolic identifiers (all usize)",
+    outside="controller with a second steered clock or tracked links (by-value moves of the 16-slot link list / LinkNoiseEstimator exhaust 8 GB); 3 or more clocks / 2 or more links (9x9 matrices: symbolic execution of the array-moving code did not finish in 15 min; with the heap storage Vec growth through realloc leaves every list loop unbounded for the symbolic executor); "
             "measurement() and progress_time() to a later time (matrix products of symbolic f64: outside, see C06 rationale); variance of a newly added element (powi(2): CBMC has no exact model); "
             "LinkNoiseEstimator state of tracked links; the values returned by clock_offset/clock_frequency for existing clocks are read through a hook using the same get_clock_info(..).offset_index() lookup (calling the queries costs a symbolic sqrt each)",
     assumptions=[
@@ -22,7 +22,7 @@ PROP = dict(
         H(ST, "c42", "c42_ops", "layout c0 c1 L: remove c0 (all rows shift), remove L, duplicate add c0: survivors' values and all pairwise covariances bit-identical, index layout stays a bijection, success iff identifier rules allow", timeout=600),
         H(ST, "c42", "c42_ops_b", "layout c1 L c0: remove L, duplicate add_external c0, remove c1", timeout=600),
         H(ST, "c42", "c42_time", "progress_time to an earlier time is NonMonotonicTimeProgression; to the current time leaves time, state and covariance bit-identical", timeout=600),
-        H(ST, "c42", "c42_ctl", "KalmanController: unknown/duplicate/wrong-kind identifiers fail and leave every entry, the dimension and the clock/link lists unchanged; succeeding calls leave other clocks' entries unchanged", timeout=600),
+        H(ST, "c42", "c42_ctl", "KalmanController: unknown/duplicate/wrong-kind identifiers fail and leave every entry, the dimension and the clock/link lists unchanged; succeeding calls (add/remove external clock, new link) leave the clock's entries unchanged", timeout=600),
     ] + [
         H(ST, "c42", "c42_ops_s%d" % i, "scripted layout %d x all 10 operations" % i, tier="thorough", timeout_thorough=1800) for i in range(6)
     ] + [
